@@ -263,3 +263,22 @@ func (h *e4hist) BadE4Once(blocks []uint64) {
 		h.times = h.times[1:]
 	}
 }
+
+// ---- J5 -----------------------------------------------------------------------------------------------------------------
+
+// GoodJ5Run walks a run of sequence numbers with a separate counter (and a wrap-safe difference test).
+func GoodJ5Run(first, n uint16, visit func(uint16)) {
+	for i := uint16(0); i < n; i++ {
+		visit(first + i)
+	}
+	for seq := first; seq-first < n; seq++ {
+		visit(seq)
+	}
+}
+
+// BadJ5Run compares against first+n, which wraps when the run crosses 65535→0: the loop body never runs.
+func BadJ5Run(first, n uint16, visit func(uint16)) {
+	for seq := first; seq < first+n; seq++ {
+		visit(seq)
+	}
+}
